@@ -47,9 +47,12 @@ package tracer
 
 //@ func (*dataTracer).tracePrefixLocked
 //@   requires wfTracer(d) && d.isStreamProtocol && held[d.mu] && d.expecting == 0 && len(data) > 0
+//@   requires slicebase(data) != slicebase(d.prefix) //# the tracer's private prefix buffer is not the caller's buffer
 //@   modifies dataTracer.prefix, dataTracer.env, dataTracer.expecting, dataTracer.endStream, []byte, Envelope.*, bufContent,
 //@            evN, evKind, evLen, evEnv, builder.*, RequestBodyData.*, ResponseBodyData.*, eventOffset.*, []Event, http.Request.*
 //@   ensures wfTracer(d) && held[d.mu]
+//@   ensures @ownbuffer slicebase(d.prefix) == old(slicebase(d.prefix)) || fresh(d.prefix)
+//@   ensures @untouched unchangedArray(data)
 //@   ensures @partial !result_1 ==> len(data) < 5 - old(len(d.prefix)) && len(d.prefix) == old(len(d.prefix)) + len(data) && d.expecting == 0 && evN[d.builder] == old(evN[d.builder])
 //@   ensures @consumed result_1 ==> result_0 == 5 - old(len(d.prefix)) && result_0 <= len(data) && len(d.prefix) == 0
 //@   ensures @decoded result_1 ==> d.expecting == old(prefixByte(d.prefix, data, 1)) * 16777216 + old(prefixByte(d.prefix, data, 2)) * 65536 +
@@ -80,3 +83,22 @@ package tracer
 //@   ensures @endstream-raw result_1 && old(d.endStream) != nil && (old(d.env.Flags) & 1) == 0 &&
 //@        old(bufContent[d.endStream]) + bytes(data[:result_0]) != "" ==>
 //@        evN[d.builder] == old(evN[d.builder]) + 2 && evKind[d.builder][old(evN[d.builder]) + 1] == 3
+
+// trace: keeps the representation invariant for any chunk of any length, never touches the
+// caller's bytes (the prefix buffer is the tracer's own), only adds events.
+//@ func (*dataTracer).trace
+//@   requires wfTracer(d) && !held[d.mu]
+//@   requires len(data) > 0 ==> slicebase(data) != slicebase(d.prefix) //# the tracer's private prefix buffer is not the caller's buffer
+//@   modifies held, dataTracer.prefix, dataTracer.env, dataTracer.expecting, dataTracer.actual, dataTracer.endStream, []byte, Envelope.*, bufContent,
+//@            evN, evKind, evLen, evEnv, builder.*, RequestBodyData.*, ResponseBodyData.*, ResponseBodyEndStream.*, eventOffset.*, []Event, http.Request.*
+//@   ensures wfTracer(d) && !held[d.mu]
+//@   ensures @events evN[d.builder] >= old(evN[d.builder])
+//@   ensures @untouched unchangedArray(data)
+//@   ensures @count !d.isStreamProtocol && old(d.actual) + len(data) <= 18446744073709551615 ==> d.actual == old(d.actual) + len(data) && evN[d.builder] == old(evN[d.builder])
+//@   loop 0:
+//@           invariant @wf wfTracer(d)
+//@           invariant @held held[d.mu] && d.isStreamProtocol
+//@           invariant @evn evN[d.builder] >= old(evN[d.builder])
+//@           invariant slicebase(data) == slicebase(old(data)) && sliceoff(data) >= sliceoff(old(data)) && sliceoff(data) + len(data) == sliceoff(old(data)) + len(old(data))
+//@           invariant len(data) > 0 ==> slicebase(data) != slicebase(d.prefix)
+//@           invariant unchangedArray(data)
